@@ -176,3 +176,71 @@ def _order_exempt(desc):
                 return True
         return False
     return rec(desc)
+
+
+def body_of(t):
+    """what a table prints as its own body: its values and the values reached through dotted child tables (sections with a header of their own are not part of it)"""
+    out = {}
+    for k, v in t[1].items():
+        if v is None:
+            continue
+        if isinstance(v, tuple) and v[0] == 'T':
+            if v[2]['dotted']:
+                sub = body_of(v)
+                if sub:
+                    out[k] = sub
+        elif isinstance(v, tuple) and v[0] == 'AOT':
+            continue
+        else:
+            out[k] = logical(v)
+    return out
+
+
+def r16_printed_pieces(rep, facts, rid='C06/R16'):
+    docs = documents()
+    R = rep.rule(rid, 'every part of a document prints, on its own, as what it holds: for every entry of every table of the model documents Display for Item is evaluated — a value prints as a '
+                 'value text that decodes (after `v = `, by Python\'s tomllib) to the value, a table prints as a body that decodes to its own values including those under dotted keys, an array '
+                 'of tables prints as an array value holding the same tables', floor=100)
+    d = facts.method('core::fmt::Display', 'toml_edit::item::Item', 'fmt')
+    if not d or not facts.has_body(d):
+        rep.incomplete(R, 'Display for Item', 'not found')
+        return
+    b = facts.body(d)
+
+    def pieces(name, t, path):
+        for k, v in t[1].items():
+            here = f'{path}.{k}' if path else k
+            if v is None:
+                continue
+            if isinstance(v, tuple) and v[0] == 'T':
+                yield f'{name}|{here!r}', ('ctor', I + 'Table', (table_model(v),)), 'body', body_of(v)
+                yield from pieces(name, v, here)
+            elif isinstance(v, tuple) and v[0] == 'AOT':
+                yield f'{name}|{here!r}', table_model(T({k: v}))[2]['items'].pairs[0][1], 'value', logical(v)
+                for i, x in enumerate(v[1]):
+                    yield from pieces(name, x, f'{here}[{i}]')
+            else:
+                yield f'{name}|{here!r}', ('ctor', I + 'Value', (value_model(v),)), 'value', logical(v)
+    for name, desc in docs:
+        for key, item, kind, want in [(f'{name}|<root>', ('ctor', I + 'Table', (table_model(desc),)), 'body', body_of(desc))] + list(pieces(name, desc, '')):
+            try:
+                it = PrintInterp(Evaluator(facts))
+                it.apply_fn(b, [item, ('formatter',)])
+                text = it.text()
+            except EvalPanic as ex:
+                rep.bad(R, key, f'printing {key} on its own panics: {ex}', facts.loc(b))
+                continue
+            except (Unanalysable, TypeError, KeyError, IndexError, AttributeError, ValueError) as ex:
+                rep.incomplete(R, key, f'cannot evaluate Display for Item on {key}: {type(ex).__name__}: {ex}', facts.loc(b))
+                continue
+            src = text if kind == 'body' else 'v = ' + text + '\n'
+            try:
+                got = tomllib.loads(src)
+            except tomllib.TOMLDecodeError as ex:
+                rep.bad(R, key, f'{key} printed on its own is not valid TOML ({ex}): {text!r:.300}', facts.loc(b))
+                continue
+            got = got if kind == 'body' else got.get('v')
+            if got != want:
+                rep.bad(R, key, f'{key} printed on its own gives {text!r:.260}, which decodes to {got!r:.200} instead of {want!r:.200}', facts.loc(b))
+            else:
+                rep.ok(R, key, f'{len(text)} bytes', facts.loc(b))
